@@ -102,6 +102,17 @@ func dupContentTie(store *Config) bool {
 	return false
 }
 
+// moreThan12: some managed policy on the manager lists more than 12 rules (also reached in the
+// middle of a script, when new rules are already there and old ones not yet deleted).
+func moreThan12(store *Config) bool {
+	for _, p := range loaded(store).Policies {
+		if len(p.Rules) > 12 {
+			return true
+		}
+	}
+	return false
+}
+
 func sortStrings(a []string) {
 	for i := 1; i < len(a); i++ {
 		for j := i; j > 0 && a[j] < a[j-1]; j-- {
@@ -195,7 +206,7 @@ func (e *engine) planBoth(c *Case, store *Config, stream string) planOutcome {
 		}
 		out.real = real
 	}
-	if mf[1] != want && c.Stream == "bigties" {
+	if mf[1] != want && (c.Stream == "bigties" || moreThan12(store)) {
 		// more than 12 rules with ties: slices.SortFunc (pdqsort) is not stable, the model's sort is;
 		// the oracle below does not depend on the model, so the case is still checked
 		e.res.Count("tie-exempt:unstable-sort-of-more-than-12-rules")
